@@ -41,7 +41,7 @@ def lex(text):
                     if not m2:
                         return None
                     s += ":" + m2.group(0); j = m2.end()
-            out.append({"k": "name", "s": s, "cp": [ord(x) for x in s]})
+            out.append({"k": "name", "s": s, "cp": [ord(x) for x in s], "xname": s.split(":", 1)[-1]})
             i = j
             continue
         for sy in SYMS:
